@@ -424,6 +424,15 @@ func checkC13(r *core.Run) {
 		}
 		r.Set("layer_flag_reuse", fmt.Sprintf("%d x %d ordered pairs of formats through one mutable flag.Value", len(fmts), len(fmts)))
 	}
+	// argument / appended string lengths 0..300 (windows, truncation, alignment after multi-byte characters)
+	nl := enum.Long([]string{"a", "\u00e9", "\xff", "%", "."}, []string{"", "/", "..", ".", "%2e", "?", "#", "a/b", "\x00"}, 300, func(v string) {
+		run(c13Case{Op: "format", Format: "https://x.com/a/b/%{x}", Args: map[string]string{"x": v}}, "Format(\"https://x.com/a/b/%{x}\" x="+core.Q(v)+")")
+		run(c13Case{Op: "format", Format: "/p/%{x}.%{x}", Args: map[string]string{"x": v}}, "Format(\"/p/%{x}.%{x}\" x="+core.Q(v)+")")
+		run(c13Case{Op: "append", Format: "https://x.com/a/b/", S: v}, "Append(\"https://x.com/a/b/\","+core.Q(v)+")")
+		run(c13Case{Op: "append", Format: "https://x.com/a/%2e", S: v}, "Append(\"https://x.com/a/%2e\","+core.Q(v)+")")
+		run(c13Case{Op: "params", Format: "https://x.com/a?b=c#f", Args: map[string]string{"k": v, v: "v"}}, "WithParams(k="+core.Q(v)+")")
+	})
+	r.Set("layer_long", fmt.Sprintf("5 padding units x 9 cores x every padding length 0..300 x 3 placements x 5 operations: %d", nl*5))
 	// Append
 	bases := []string{"https://x.com/a/b/", "https://x.com/a/b", "https://x.com/a/b/.", "https://x.com/a/%2e", "//x.com/", "/a/", "/a", "about:blank#", "https://x.com/a?q=", "https://x.com/a#f",
 		"http://x.com/", "x.com/", "javascript:", "", "/", "//", "/\\x", "https:///x", "/a/b/..", "https://x.com/a/b/c.", "/a/./"}
